@@ -8,6 +8,11 @@ import (
 func (k Keeper) CheckSameAssetPosition(ctx sdk.Context, msg *types.MsgOpen) *types.MTP {
 	mtps := k.GetAllMTPsForAddress(ctx, sdk.MustAccAddressFromBech32(msg.Creator))
 	for _, mtp := range mtps {
+		// a position belongs to one pool: an open that names a pool only matches positions of that pool
+		// (pool id 0 is not a valid pool and is rejected by MsgOpen.ValidateBasic)
+		if msg.PoolId != 0 && mtp.AmmPoolId != msg.PoolId {
+			continue
+		}
 		if mtp.Position == msg.Position && mtp.CollateralAsset == msg.Collateral.Denom && mtp.TradingAsset == msg.TradingAsset {
 			return mtp
 		}
